@@ -1,7 +1,7 @@
 #!/bin/bash
 # Runs the registered quick check of each seeded mutation's property against the mutated tree
 # (scratch worktree via tools/try_mutant.sh) and records the outcome in seeded/<id>/detect.txt.
-cd /verif
+cd "$(dirname "$(dirname "$(readlink -f "$0")")")"
 for d in ${@:-seeded/*/}; do
   d="${d%/}"
   id="$(basename "$d")"
